@@ -51,13 +51,14 @@ Qed.
 Lemma estep_panic size dur o s : lpanic (elru (cache s)) = true ->
   lpanic (elru (cache (snd (estep size dur o s)))) = true.
 Proof.
-  intros H. destruct o as [ds d1 d2 fault|ds d1|ds d1|d|d]; cbn [estep].
+  intros H. destruct o as [ds d1 d2 fault|ds d1|ds d1|d|d|d fault]; cbn [estep].
   - pose proof (ec_remove_existing_panic dur (now s + d1)%N (dedup_sort ds) (cache s) H) as R.
     destruct (ec_remove_existing dur (now s + d1)%N (dedup_sort ds) (cache s)) as [mm c1]. cbn [snd] in R.
     destruct (negb (Z.eqb fault 0)); cbn [snd cache]; [exact R|]. apply ec_add_panic, R.
   - pose proof (ec_remove_existing_panic dur (now s + d1)%N (dedup_sort ds) (cache s) H) as R.
     destruct (ec_remove_existing dur (now s + d1)%N (dedup_sort ds) (cache s)) as [mm c1]. exact R.
   - cbn [snd cache]. apply ec_add_panic, H.
+  - exact H.
   - exact H.
   - exact H.
 Qed.
@@ -148,12 +149,13 @@ Proof.
     rewrite X in Hnp. discriminate. }
   assert (Hsame : cache s1 = cache s -> small_hist 0 dur r s1).
   { intros C. apply IH; [rewrite C; exact Ht|rewrite C; exact Hq|exact Hp1]. }
-  destruct o as [ds d1 d2 fault|ds d1|ds d1|d|d]; cbn [estep] in E.
+  destruct o as [ds d1 d2 fault|ds d1|ds d1|d|d|d fault]; cbn [estep] in E.
   - rewrite (ec_remove_existing_empty _ _ _ _ Ht) in E.
     destruct (negb (Z.eqb fault 0)); inversion E; subst; clear E; [apply Hsame; reflexivity|].
     apply Hsame. cbn [cache]. rewrite (Hadd _ _ eq_refl). reflexivity.
   - rewrite (ec_remove_existing_empty _ _ _ _ Ht) in E. inversion E; subst. apply Hsame. reflexivity.
   - inversion E; subst; clear E. apply Hsame. cbn [cache]. rewrite (Hadd _ _ eq_refl). reflexivity.
+  - inversion E; subst. apply Hsame. reflexivity.
   - inversion E; subst. apply Hsame. reflexivity.
   - inversion E; subst. apply Hsame. reflexivity.
 Qed.
